@@ -27,7 +27,10 @@ Checked for BOTH back ends, whenever the fault fires (otherwise the input is tri
 """
 import copy
 import json
+import os
 import random
+import subprocess
+import sys
 import time
 
 import numpy as np
@@ -208,6 +211,7 @@ def reference_writes(prog, step, site, pre):
     -> (writes, None) or (None, reason why the value clauses cannot be evaluated)"""
     try:
         ref = B.Ref(prog)
+        ref.ignore = B.unmentioned_state(prog)
         for _ in range(step):
             o = ref.step([])
             if o not in ("completed", "failed"):
@@ -221,6 +225,19 @@ def reference_writes(prog, step, site, pre):
         return ref.writes, None
     except B.DomainError as ex:
         return None, "outside the domain: %s" % ex
+
+
+def continuation_in_domain(prog, raw, phase, more):
+    """does the program, carried out in program order from the state after the failure, stay inside
+    the domain (every variable assigned before it is read, ...) for the steps that are compared?"""
+    ref = B.Ref(prog)
+    ref.store = copy.deepcopy(raw)
+    ref.next_phase = phase
+    try:
+        tr = ref.run({"max_steps": more, "t_end": None}, 40)
+    except B.DomainError:
+        return False
+    return not B.has_nan(tr)
 
 
 # ---- evaluation ------------------------------------------------------------------------------------------
@@ -264,6 +281,11 @@ def evaluate_backend(kind, inp, interp_class=None):
     ctl.armed = False
     raw = persistent_raw(st)
     phase = st.next_phase
+    if not continuation_in_domain(prog, raw, phase, more):
+        # e.g. the failure happened before the initial phase assigned a <p> variable that the next
+        # phase reads: what the steppers do with an unassigned variable is outside the domain
+        res["notes"].append("continuation reads an unassigned variable: 'resumable' not evaluated")
+        return res
     ta, ca, _ = drive(st, mode, more, 40)
     fresh = make_stepper(kind, prog, B.function_map(prog), interp_class)
     # `raw` is ONE deep copy of the failed stepper's persistent variables (aliasing between them kept)
@@ -274,8 +296,8 @@ def evaluate_backend(kind, inp, interp_class=None):
             fresh.set_var(k, v)
     fresh.next_phase = phase
     tb, cb, _ = drive(fresh, mode, more, 40)
-    ka = B.error_kind(ca) if ca is not None else None
-    kb = B.error_kind(cb) if cb is not None else None
+    ka = B.error_kind(ca)[:2] if ca is not None else None
+    kb = B.error_kind(cb)[:2] if cb is not None else None
     if ta != tb or ka != kb:
         d = B.first_diff(ta, tb)
         problems.append(("resumable", "continuing the failed stepper differs from a fresh stepper started in "
@@ -316,7 +338,7 @@ def fp_pep479(inp):
 FINGERPRINTS = {"pep479_stopiteration": fp_pep479}
 
 
-def replay(inp):
+def _replay(inp):
     try:
         v = evaluate(inp)
     except B.DomainError as ex:
@@ -342,7 +364,7 @@ def base_program(rng):
               builtin_kwargs=False, funcs=True, call_boost=True)
     for _ in range(20):
         p = g.program()
-        if len(p["funcs"]) >= 2 and not any(s[0] == "assign_sub" and not B.stmt_loops(s)
+        if len(p["funcs"]) >= 2 and not B.has_guarded_loop_bound(p) and not any(s[0] == "assign_sub" and not B.stmt_loops(s)
                                             and isinstance(s[3], list) and s[3][0] == "call"
                                             for s, _ in B.all_stmts(p)):
             break
@@ -370,14 +392,14 @@ def crash_points(prog, steps):
     return out
 
 
-def bounded(payload):
+def _bounded(payload):
     t0 = time.time()
     budget = payload.get("budget", {}) or {}
     tier = payload.get("tier", "quick")
     seed = payload.get("seed", 0)
     rng = random.Random(seed)
-    n_prog = budget.get("programs", 100 if tier == "quick" else 2500)
-    wall = budget.get("wall_s", 15 if tier == "quick" else 270)
+    n_prog = budget.get("programs", 55 if tier == "quick" else 1400)
+    wall = budget.get("wall_s", 22 if tier == "quick" else 280)       # safety net only (keeps runs deterministic)
     steps = budget.get("steps", 3)
     active = {e.get("fingerprint") for e in payload.get("known", []) if e.get("fingerprint") in FINGERPRINTS}
     exc_names = ["ValueError", "InjectedFault", "KeyError", "InjectedBase", "ZeroDivisionError"]
@@ -385,7 +407,7 @@ def bounded(payload):
     failures, samples, known_hits = [], [], []
     per_clause = {}
     parts = {"programs": 0, "crash_points": 0, "fault_fired_both": 0, "fault_fired_one": 0,
-             "fault_never_fired": 0, "value_clauses_not_evaluable": 0, "skipped": 0,
+             "fault_never_fired": 0, "some_clause_not_evaluable": 0, "skipped": 0,
              "fingerprint_hits": {}, "suppressed_by_active_fingerprint": 0, "stopiteration_probes": 0}
     distinct = set()
     evals = 0
@@ -407,7 +429,7 @@ def bounded(payload):
         if fired:
             distinct.add(B.key_of(inp))
         if v["notes"]:
-            parts["value_clauses_not_evaluable"] += 1
+            parts["some_clause_not_evaluable"] += 1
         if v["status"] != "fail":
             return
         fp = None
@@ -456,7 +478,7 @@ def bounded(payload):
 
     for e in payload.get("known", []):
         try:
-            r = replay(e["native"])
+            r = _replay(e["native"])
         except Exception:       # noqa: BLE001
             continue
         if r.get("fails"):
@@ -475,3 +497,42 @@ def bounded(payload):
                      "first %d steps, 2 further steps after the failure" % steps,
             "samples": samples[:2], "failures": failures[:20], "known_hits": known_hits,
             "parts": parts, "exhaustive": False}
+
+
+# ---- pinning the hash seed -------------------------------------------------------------------------------------
+# The order in which the real interpreter runs independent statements follows set iteration order, i.e.
+# the process's string hash seed.  Which statements have run when the fault fires (and hence some of the
+# measured counters) therefore varies with PYTHONHASHSEED; to make results reproducible the work is done
+# in a child process with PYTHONHASHSEED=0 unless this process already runs with it.
+
+def _main():
+    mode = sys.argv[1]
+    real = sys.stdout
+    sys.stdout = sys.stderr
+    payload = json.loads(sys.stdin.read())
+    out = _bounded(payload) if mode == "bounded" else _replay(payload)
+    real.write(json.dumps(out, default=str))
+    real.flush()
+
+
+def _pinned(mode, payload):
+    if os.environ.get("PYTHONHASHSEED") == "0":
+        return None
+    try:
+        env = dict(os.environ, PYTHONHASHSEED="0", PYTHONPATH=os.pathsep.join(p for p in sys.path if p))
+        r = subprocess.run([sys.executable, "-c", "from replay.oracles import c11; c11._main()", mode],
+                           input=json.dumps(payload).encode(), stdout=subprocess.PIPE,
+                           stderr=subprocess.DEVNULL, env=env, check=True)
+        return json.loads(r.stdout.decode())
+    except Exception:       # noqa: BLE001 - fall back to this process
+        return None
+
+
+def bounded(payload):
+    out = _pinned("bounded", payload)
+    return out if out is not None else _bounded(payload)
+
+
+def replay(inp):
+    out = _pinned("replay", inp)
+    return out if out is not None else _replay(inp)
